@@ -712,7 +712,11 @@ impl C05 {
 
     fn gen(&self, seed: u64) -> (Workload, Scn) {
         let mut r = Rng::stream(seed, "workload");
-        let wl = gen_workload(&mut r, &WlOpts::default());
+        let mut o = WlOpts::default();
+        // a quarter of the workloads carry adversarial-but-grammatical rules, so that
+        // evaluation errors (whose messages list rule / variable names) are exercised too
+        o.gen.adversarial = r.chance(1, 4);
+        let wl = gen_workload(&mut r, &o);
         let nsteps = 1 + r.usize(4);
         let mut steps = Vec::new();
         for _ in 0..nsteps {
